@@ -41,6 +41,11 @@ func findTransactionFolds(content string) []protocol.FoldingRange {
 
 		startLine := uint32(tx.Range.Start.Line - 1)
 		endLine := uint32(tx.Range.End.Line - 1)
+		// a transaction's range ends where the next token starts: at column 1 of a
+		// following line that is the first line NOT belonging to it
+		if tx.Range.End.Column == 1 && endLine > startLine {
+			endLine--
+		}
 
 		if endLine > startLine {
 			ranges = append(ranges, protocol.FoldingRange{
